@@ -33,7 +33,7 @@ let print_points p =
   let (v, d) = window p in
   if p.fn = 1 then swrite p.o d v else sprint p.o d v p.rng
 
-let () = reg "C10" "Sprint" (fun ver args _obs ->
+let sprint_handler prop = reg prop "Sprint" (fun ver args _obs ->
   let p = parse_print ver (mk args) in
   let pts = print_points p in
   let (v, d) = window p in
@@ -45,3 +45,5 @@ let () = reg "C10" "Sprint" (fun ver args _obs ->
     @ (if List.length p.rng >= 2 then ["gaps"] else []) in
   let v' = ok_v (string_of_int (List.length pts) :: List.map zs pts) tags in
   if not (asc_b Z0 shown) then { v' with spec = Some "model precondition: shown pairs are not ascending" } else v')
+let () = sprint_handler "C10"
+let () = sprint_handler "C14"
